@@ -216,6 +216,21 @@ Definition gain_fits (g : gainrep) (r c : Z) : Prop :=
   | G3 cu => cnr cu = r /\ cnc cu = c /\ 0 <= cnk cu
   | GN => False
   end.
+(* the electron count clipped to the saturation capacity, as the property states it: every capacity clips *)
+Definition clip_spec (sat : option Qc) (e : Qc) : Qc :=
+  match sat with Some s => qmin e s | None => e end.
 (* the digital number the property prescribes *)
 Definition dn_spec (coefs : list Qc) (sat : option Qc) (e : Qc) : Z :=
-  Z.max 0 (qfloor (polyval (coefs ++ [Q2Qc 0]) (clip sat e))).
+  Z.max 0 (qfloor (polyval (coefs ++ [Q2Qc 0]) (clip_spec sat e))).
+(* some pixel holds more electrons than the capacity *)
+Definition exceeds (sat : option Qc) (img : arr QcS) : Prop :=
+  match sat with
+  | Some s => exists i j, 0 <= i < nr img /\ 0 <= j < nc img /\ (s < get img i j)%Qc
+  | None => False
+  end.
+
+(* ---- arrays read from row-major lists (the test cases) ---- *)
+Definition cube_of_list (S : Scalar) (k r c : Z) (l : list S) : cube S :=
+  mkCube k r c (fun d i j => nth (Z.to_nat ((d * r + i) * c + j)) l k0).
+Definition vec_of_list (S : Scalar) (l : list S) : vec S :=
+  mkVec (Z.of_nat (length l)) (fun k => nth (Z.to_nat k) l k0).
